@@ -41,6 +41,7 @@ def main():
     props = [prop]
     tier = "quick"
     keep = "--keep" in opts
+    fallback_all = "--fallback-all" in opts
     label = ""
     for o in opts:
         if o.startswith("--label="):
@@ -81,7 +82,10 @@ def main():
             rec["confirmed"] = rec["demo_passes_without_patch"] and rec["suite_passes_with_patch"] and rec["demo_fails_with_patch"]
             rec["checks"] = {}
             if rec["confirmed"]:
-                for p in props:
+                todo = list(props)
+                done_fallback = False
+                while todo:
+                    p = todo.pop(0)
                     t0 = time.time()
                     e = dict(os.environ, VERIF_REPO=wt)
                     e.pop("VERIF_SEED", None)
@@ -100,6 +104,12 @@ def main():
                     elif rcc == 2:
                         expl = outc[-600:]
                     rec["checks"][p] = {"verdict": verdict, "seconds": round(time.time() - t0), "explanation": expl}
+                    if not todo and fallback_all and not done_fallback and not any(c["verdict"] == "CAUGHT" for c in rec["checks"].values()):
+                        # the property's own check missed it: does any other property's check notice?
+                        done_fallback = True
+                        todo = [q for q in ["C%02d" % i for i in range(1, 21)] if q not in rec["checks"]]
+                    if fallback_all and done_fallback and verdict == "CAUGHT":
+                        todo = []
         finally:
             sh(["git", "-C", "/repo", "worktree", "remove", "--force", wt])
             shutil.rmtree(wt, ignore_errors=True)
